@@ -835,6 +835,7 @@ fn cli_gate(bin: &std::path::Path, input: &Input) -> Result<bool, Outcome> {
         .arg("--output")
         .arg(&out)
         .arg(&main)
+        .current_dir(&dir)
         .stdin(std::process::Stdio::null())
         .stdout(std::process::Stdio::null())
         .stderr(std::process::Stdio::null())
